@@ -91,7 +91,14 @@ class TDict(dict):
         return TDict(dict.copy(self))
 
 
+def _fails(fail_run):
+    if fail_run is None:
+        return set()
+    return set(fail_run) if isinstance(fail_run, (list, tuple, set)) else {fail_run}
+
+
 def classes(fail_run=None):
+    failing = _fails(fail_run)
     class Src(strax.Plugin):
         provides = ("src",)
         depends_on = ()
@@ -107,7 +114,7 @@ def classes(fail_run=None):
 
         def compute(self, chunk_i):
             r = int(self.run_id)
-            if fail_run is not None and r == fail_run:
+            if r in failing:
                 raise H.HarnessFailure(f"run {r} fails")
             rows = [[10 * chunk_i + 1, 10 * chunk_i + 3, 100 * r + chunk_i], [10 * chunk_i + 5, 10 * chunk_i + 6, 100 * r + 10 + chunk_i]]
             return self.chunk(start=10 * chunk_i, end=10 * (chunk_i + 1), data=H.rows_to_array(rows))
@@ -119,7 +126,7 @@ def classes(fail_run=None):
 def expected(runs, targets, fail_run=None, ignore=False):
     out = []
     for r in sorted(runs, key=str):
-        if fail_run is not None and int(r) == fail_run:
+        if int(r) in _fails(fail_run):
             continue
         for ci in range(2):
             for v in (100 * int(r) + ci, 100 * int(r) + 10 + ci):
@@ -251,7 +258,7 @@ def run(chk):
             for fails, ign in (("{}", False), ("{1}", False), ("{1}", True)):
                 files = {"MC.tla": "---- MODULE MC ----\nEXTENDS MultiRun\nRunsDef == <<2, 0, 1, 3>>\n====\n",
                          "MC.cfg": f"SPECIFICATION Spec\nCONSTANTS MaxWorkers = {1 if fails != '{}' else 2} Multi = {V.to_tla(multi)} Fails = {fails} "
-                                   f"IgnoreErrors = {V.to_tla(ign)} Repaired = {V.to_tla(rep)}\nRuns <- RunsDef\nINVARIANT NoCrash\n"
+                                   f"IgnoreErrors = {V.to_tla(ign)} Repaired = {V.to_tla(rep)} RefillOnSuccessOnly = FALSE\nRuns <- RunsDef\nINVARIANT NoCrash\n"
                                    "INVARIANT RegistryRestored\nINVARIANT ResultOK\nINVARIANT FailureHandling\nINVARIANT Outstanding\n"
                                    "PROPERTY Finishes\nCHECK_DEADLOCK FALSE\n"}
                 d = V.stage_spec(["MultiRun"], files)
@@ -262,6 +269,21 @@ def run(chk):
                     chk.extra.setdefault("design_violations", []).append(r.violated)
                 if not rep and multi and fails == "{}" and r.violated != "NoCrash":
                     raise V.MachineryError("MultiRun.tla as found does not reach a crashed worker: no teeth")
+    # several ignored failures followed by more runs: every remaining run is still processed (refill per finished future);
+    # the variant that refills only after a success must violate ResultOK
+    for refill_success_only in (False, True):
+        files = {"MC.tla": "---- MODULE MC ----\nEXTENDS MultiRun\nRunsDef == <<0, 1, 2, 3, 4, 5>>\n====\n",
+                 "MC.cfg": f"SPECIFICATION Spec\nCONSTANTS MaxWorkers = 1 Multi = FALSE Fails = {{1, 3}} IgnoreErrors = TRUE Repaired = TRUE "
+                           f"RefillOnSuccessOnly = {V.to_tla(refill_success_only)}\nRuns <- RunsDef\nINVARIANT NoCrash\nINVARIANT ResultOK\n"
+                           "INVARIANT FailureHandling\nINVARIANT Outstanding\nPROPERTY Finishes\nCHECK_DEADLOCK FALSE\n"}
+        d = V.stage_spec(["MultiRun"], files)
+        r = V.run_tlc(d, "MC", "MC.cfg", workers=4, timeout=900)
+        chk.add_tlc(r, f"MultiRun 6 runs, fails {{1, 3}} ignored, refill only on success = {refill_success_only}")
+        V.tlc_must_finish(r, "MultiRun")
+        if not refill_success_only and r.violated:
+            chk.extra.setdefault("design_violations", []).append(r.violated)
+        if refill_success_only and r.violated != "ResultOK":
+            raise V.MachineryError("MultiRun.tla with refill-on-success-only does not violate ResultOK: no teeth")
     # code level
     S = []
     for nruns in (2, 3) if quick else (2, 3, 4, 6):
@@ -275,6 +297,11 @@ def run(chk):
     S.append(dict(runs=["0", "1", "2"], workers=2, targets=("pa", "pb"), warm=False, storage=False, fail_run=1))
     S.append(dict(runs=["0", "1", "2"], workers=2, targets=("pa", "pb"), warm=False, storage=False, fail_run=1, ignore=True))
     S.append(dict(runs=["0", "1", "2"], workers=2, targets=("pa",), warm=False, storage=True, fail_run=0, ignore=True))
+    # as many ignored failures as tasks in flight (2 * workers), and more runs after them: nothing may be dropped
+    S.append(dict(runs=[str(i) for i in range(6)], workers=1, targets=("pa",), warm=False, storage=False, fail_run=[1, 3], ignore=True))
+    S.append(dict(runs=[str(i) for i in range(6)], workers=1, targets=("pa",), warm=False, storage=False, fail_run=[0, 1], ignore=True))
+    S.append(dict(runs=[str(i) for i in range(8)], workers=2, targets=("pa", "pb"), warm=False, storage=False, fail_run=[0, 1, 2, 4], ignore=True))
+    S.append(dict(runs=[str(i) for i in range(6)], workers=1, targets=("pa",), warm=False, storage=True, fail_run=[2, 3], ignore=True))
     nsched = 4 if quick else 25
     work = [(sc, chk.seed * 1000 + i, "dsched") for sc in S for i in range(nsched)]
     work += [(sc, 0, "os-stress") for sc in S[:: 2 if quick else 1]]
